@@ -1413,6 +1413,10 @@ class FileSet:
         elif isinstance(bundle_size, str):
             files = list(file_iterator)
 
+            if not files:
+                # Nothing to bundle
+                return
+
             # We want to split the files into hourly (or daily, etc.) bundles.
             # pandas provides a practical grouping function.
             time_series = pd.Series(
